@@ -241,6 +241,65 @@ fn apply_lens(id: &str, case: &Case, expected: &Value) -> Option<Value> {
 
 const LENSES: &[&str] = &["D10"];
 
+/// Inputs for which the statements model no successful lowering (a `v-slots` value on a host whose
+/// children are not slots, a second `v-slots`): either the transform reports an error, or the
+/// parts of the statements that still apply must hold - the written expression is evaluated
+/// exactly once at creation (C11) and an element without children gets `null` (C02).
+pub fn misuse_case(jsx: &str, leaf: Option<&str>, children_null: bool) -> Case {
+    let src = format!("import {{ C1, sl1, x }} from \"env\";\nexport const e0 = {jsx};\n");
+    let mut case = Case::new(src, "jsx", Some("{}".into()));
+    use crate::gen::jsx::*;
+    let env = Env {
+        bound: vec![
+            ("C1".into(), v_comp("C1")),
+            ("x".into(), v_str("xv")),
+            ("sl1".into(), v_obj(vec![("named", v_fn("sl1.named", v_str("r")))])),
+        ],
+        globals: vec![(
+            "t".into(),
+            json!({"k":"tracer","id":"t","rets": {}, "default": {"k":"obj","v":{"named":{"k":"fn","id":"t.named","ret":{"k":"undef"}}}}}),
+        )],
+        factories: vec![],
+    };
+    case.extra = json!({"env": env.json(), "misuse": {"leaf": leaf, "children_null": children_null}});
+    case.nontrivial = true;
+    case.label("misuse-must-be-reported-or-harmless");
+    case
+}
+
+fn judge_misuse(case: &Case, ctx: &mut Ctx, diags: &[String], code: &str) -> Verdict {
+    if !diags.is_empty() {
+        return Verdict::Pass;
+    }
+    let results = match node_eval(ctx, vec![("main", code)], &case.extra["env"], &json!({"trace": true}), None) {
+        Ok(r) => r,
+        Err(v) => return v,
+    };
+    let m = &results["main"];
+    if !m["error"].is_null() {
+        return Verdict::Violation {
+            kind: "evaluation-error".into(),
+            detail: json!({"error": m["error"], "output": code}),
+        };
+    }
+    if let Some(leaf) = case.extra["misuse"]["leaf"].as_str() {
+        let n = m["creation_trace"].as_array().map(|a| a.iter().filter(|e| e.as_str() == Some(leaf)).count()).unwrap_or(0);
+        if n != 1 {
+            return Verdict::Violation {
+                kind: "expression-not-evaluated-once-and-nothing-reported".into(),
+                detail: json!({"leaf": leaf, "evaluations": n, "trace": m["creation_trace"], "output": code}),
+            };
+        }
+    }
+    if case.extra["misuse"]["children_null"].as_bool() == Some(true) && !m["exports"]["e0"]["children"].is_null() {
+        return Verdict::Violation {
+            kind: "children-not-null-and-nothing-reported".into(),
+            detail: json!({"children": m["exports"]["e0"]["children"], "output": code}),
+        };
+    }
+    Verdict::Pass
+}
+
 pub fn judge_semantic(case: &Case, ctx: &mut Ctx) -> Verdict {
     judge_semantic_for(case, ctx, "")
 }
@@ -251,6 +310,9 @@ pub fn judge_semantic_for(case: &Case, ctx: &mut Ctx, prop: &str) -> Verdict {
         Ok(t) => t,
         Err(v) => return v,
     };
+    if case.extra.get("misuse").is_some() {
+        return judge_misuse(case, ctx, &t.diags, &t.code);
+    }
     if !t.diags.is_empty() {
         return Verdict::Violation {
             kind: "unexpected-diagnostic".into(),
